@@ -777,6 +777,19 @@ example : allocSpec Gen.Quota.hare [([(0, 5)], 2), ([(1, 3)], 1)] 2 = none := by
 example : ScoreProfileWF [([(0, 5), (1, 2), (2, 1)], 2), ([(0, 1), (1, 3), (2, 0)], 2)] := by
   refine ⟨by decide +kernel, ?_, ?_⟩ <;> intro bn hbn <;> simp at hbn <;> rcases hbn with rfl | rfl <;> decide +kernel
 
+/-- the selector on ballots with arbitrary exact weights (what the driver executes, also for `Fraction` counts and
+    counts beyond 2^53) is the integer-count selector on integer counts, so every theorem above speaks about it -/
+theorem allocatedSelector_eq_weighted (quota : Rat → Nat → Rat) (votes : SProfile) (n : Nat) :
+    allocatedSelector quota votes n =
+      allocatedSelectorW quota (votes.map (fun bn => (bn.1, ((bn.2 : Int) : Rat)))) n := by
+  unfold allocatedSelector allocatedSelectorW
+  have h : (((totalVotes votes : Int)) : Rat) = ((votes.map (fun bn => (bn.1, ((bn.2 : Int) : Rat)))).map (·.2)).sum := by
+    unfold totalVotes
+    induction votes with
+    | nil => simp
+    | cons x xs ih => simp only [List.map_cons, List.sum_cons, List.map_map] at ih ⊢; push_cast; rw [ih]
+  rw [h]
+
 /-- fix 4ae6629: three candidates level for two seats — the tie is listed once per seat it contests -/
 theorem allocated_tie_places_fixed :
     allocatedSelector Gen.Quota.hare [([(0, 1), (1, 1), (2, 1)], 2)] 2
